@@ -4,12 +4,13 @@ from .. import oracle as o
 
 ID = 'C10'
 RULE = ('one record per KDF call: HKDF-Extract/Expand over SHA-1/256/512/SHA3-256 with L in {0,1,HL-1,HL,HL+1,2HL+1,255HL-1,255HL} must equal RFC 5869 and '
-        'L in {255HL+1, 256HL, 256HL+1, 300HL} must be refused (PANIC); PBKDF2 over HMAC-SHA1/256/512 with c in {1,2,3,4,5,10,100,(4096)} and dkLen '
-        'across block boundaries; scrypt over the grid log2N 1..10 x r 1..8 x p 1..4 with dkLen 1..130 (quick: Latin-square quarter); '
+        'L in {255HL+1, 256HL, 256HL+1, 300HL} must be refused (PANIC); PBKDF2 over HMAC-SHA1/256/512, HMAC over truncated BLAKE2 and keyed BLAKE2 itself (PRF output lengths 1..64, not multiples of 4) with c in {1,2,3,4,5,10,100,(4096)} and dkLen '
+        'across block boundaries; scrypt at N = 2^17 and over the grid log2N 1..10 x r 1..8 x p 1..4 with dkLen 1..130 (quick: Latin-square quarter); '
         'HKDF is also handed digest objects that already absorbed data or were finalised; every output buffer is pre-filled with a non-zero pattern by the driver; distinct = (function, digest/params, length class)')
 ASSUMPTIONS = ['hashlib.pbkdf2_hmac / hashlib.scrypt (OpenSSL) and own RFC transcriptions pinned by RFC 5869/6070/7914 vectors']
 FLOORS = {'evaluations': 400, 'distinct': 300}
 THOROUGH_ROUNDS = 40   # thorough tier: generator passes with derived seeds (runner.gen_rounds)
+EXTRA_CFGS = ['f32']   # the workload is also executed by the force-32bits build of the library; results must not change (runner.standard_check)
 
 
 def gen(tier, seed):
@@ -36,11 +37,22 @@ def gen(tier, seed):
             for dk in dks:
                 yield 'pbkdf2 %s %s %s %d %d' % (d, rng.data(rng.choice([0, 1, 8, 64, 65, 200])), rng.data(rng.choice([0, 1, 8, 16, 100])), c, dk)
         yield 'pbkdf2 %s %s %s %d %d' % (d, rng.data(8), rng.data(8), rng.rng(200, 1000), 3 * hl + 5)
+    # PRFs whose output length is not a multiple of 4 / 8 / 16 bytes: HMAC over truncated BLAKE2, and keyed BLAKE2 itself as the PRF
+    for d, hl in (('blake2s:25', 25), ('blake2b:30', 30), ('blake2b:1', 1), ('blake2s:7', 7), ('b2bmac:30', 30), ('b2bmac:64', 64), ('b2bmac:13', 13), ('b2smac:25', 25), ('b2smac:32', 32), ('b2smac:3', 3)):
+        for c in (1, 2, 3, 10):
+            for dk in (1, hl - 1 if hl > 1 else 2, hl, hl + 1, 2 * hl + 3, 5 * hl):
+                pw = rng.data(rng.choice([1, 8, 32]) if 'mac' in d else rng.choice([0, 1, 8, 64, 200]))
+                yield 'pbkdf2 %s %s %s %d %d' % (d, pw, rng.data(rng.choice([0, 8, 16])), c, dk)
     # block index above 2^16 (and, thorough, a second digest): INT(i) must stay a 32-bit big-endian counter
     yield 'pbkdf2 sha1 %s %s 1 %d' % (rng.data(8), rng.data(8), 65537 * 20 + 3)
     if thorough:
         yield 'pbkdf2 sha256 %s %s 1 %d' % (rng.data(8), rng.data(8), 65538 * 32 + 1)
         yield 'pbkdf2 sha512 %s %s 2 %d' % (rng.data(8), rng.data(8), 65536 * 64 + 65)
+    # N above 2^16 (admissible only with r >= 2): Integerify must use more than 16 bits of the last block
+    yield 'scrypt %s %s 17 2 1 %d' % (rng.data(8), rng.data(8), rng.choice([16, 32, 64]))
+    if thorough:
+        yield 'scrypt %s %s 18 2 1 33' % (rng.data(5), rng.data(12))
+        yield 'scrypt %s %s 17 3 2 64' % (rng.data(5), rng.data(12))
     grid = [(ln, r, p) for ln in range(1, 11) for r in range(1, 9) for p in range(1, 5)]
     reps = 2 if thorough else 1
     for rep in range(reps):
